@@ -4,7 +4,7 @@ pub mod problems;
 pub mod run;
 pub mod snode;
 
-use mahf::{state::common::Populations, Individual, Problem, Random, State};
+use mahf::{state::common::Populations, Component, Individual, Problem, Random, State};
 
 /// A state holding a population stack (bottom..top) and a seeded random generator.
 pub fn state_with<P: Problem>(pops: Vec<Vec<Individual<P>>>, seed: u64) -> State<'static, P> {
@@ -16,6 +16,27 @@ pub fn state_with<P: Problem>(pops: Vec<Vec<Individual<P>>>, seed: u64) -> State
     state.insert(ps);
     state.insert(Random::new(seed));
     state
+}
+
+/// Number of nested scopes (0 for five keys in six, else 1-3) a component is executed in for the case with this key.
+pub fn nest_of(key: u64) -> u8 {
+    let h = key.wrapping_mul(0x9E37_79B9_7F4A_7C15) >> 17;
+    if h % 6 == 0 {
+        1 + (h / 6 % 3) as u8
+    } else {
+        0
+    }
+}
+
+/// `comp` wrapped in `nest_of(key)` nested scopes. Operators work on state (population stack, random generator, their
+/// own parameters) that lives in an enclosing scope; running them inside a scope must not change what they do, and
+/// whatever they put onto the population stack must still be there after the scope has ended.
+pub fn maybe_nested<P: Problem + 'static>(comp: Box<dyn Component<P>>, key: u64) -> Box<dyn Component<P>> {
+    let mut comp = comp;
+    for _ in 0..nest_of(key) {
+        comp = mahf::components::Scope::new(vec![comp]);
+    }
+    comp
 }
 
 /// Solutions of every population, bottom..top.
